@@ -9,7 +9,7 @@ from collections import Counter
 from fractions import Fraction
 from typing import Any, Dict, Iterable, List, Optional
 
-from harness.core import Case, Check, Finding, call
+from harness.core import OUTSIDE, Case, Check, Finding, call
 
 
 # ---------------------------------------------------------------------------------------
@@ -244,6 +244,114 @@ def _g2(a: int, b: int, c: int, d: int) -> float:
 
 def _close(x: float, y: float, tol: float = 1e-9) -> bool:
     return abs(x - y) <= tol * max(1.0, abs(x), abs(y))
+
+
+def _keyness_cmp(where: str, io: Dict[str, Dict[str, float]], m, tie, score: bool) -> Optional[str]:
+    """one compute_keyness result against the model's [token, table, more] list.
+
+    C20: "Keyness puts every vocabulary token in 'more' when its relative frequency in the target exceeds that in
+    the reference and in 'less' when it is lower, never in both" — the statement is silent about a token whose two
+    relative frequencies are EXACTLY equal.  `tie(tok)` is that condition, computed by the caller with exact integers
+    from the counters of the case (t[w] * ref_total == r[w] * target_total, the cross-multiplication of
+    C20_more_iff).  For such a token (and for no other) either side is accepted; it must still be in exactly one
+    of the two counters, and its score is compared as for every other token.  Everything else is exact."""
+    mm = {tok: (tbl, more) for tok, tbl, more in m}
+    if set(mm) != set(io['more']) | set(io['less']):
+        return f'{where}: vocabulary impl={sorted(set(io["more"]) | set(io["less"]))} model={sorted(mm)}'
+    for tok, (tbl, more) in mm.items():
+        in_more, in_less = tok in io['more'], tok in io['less']
+        if in_more == in_less:      # (neither is excluded by the vocabulary test above)
+            return f'{where}: {tok} is in both more and less'
+        a, b, c, d = tbl
+        tied = tie(tok)
+        if tied != (a * d == b * c):
+            return f'{where}: {tok}: the model table {tbl} and the counters of the case disagree on equal relative frequency'
+        if in_more != more and not tied:
+            return f'{where}: direction of {tok}: impl more={in_more} model more={more} table={tbl}'
+        if score:
+            sc = io['more' if in_more else 'less'][tok]
+            if sum(tbl) > 0 and not _close(sc, _g2(*tbl)):
+                return f'{where}: score of {tok}: impl={sc!r} formula on the model table {tbl} = {_g2(*tbl)!r}'
+    return None
+
+
+def _width_tie_ranges(w: int, bps: List[int], ranges: List[str]):
+    """a width lying EXACTLY on a boundary point: the two ranges that may own it (the statement — C20 "line-width tables
+    are partitions", C19 "exactly one range defined by the boundary points" — does not say which): the first range
+    whose end is >= w (reading (prev, p]) and the first whose end is > w (reading [prev, p)); for an increasing list
+    these are the two ranges meeting at the point.  None for every other width (same rule as harness/props/c19.py)."""
+    if w not in bps or len(ranges) != len(bps) + 1:
+        return None
+    closed_right = next((j for j, p in enumerate(bps) if p >= w), len(bps))
+    closed_left = next((j for j, p in enumerate(bps) if p > w), len(bps))
+    return {ranges[closed_right], ranges[closed_left]}
+
+
+def _width_counts_reachable(ws: List[int], bps: List[int], ranges: List[str], model_cats: List[str]):
+    """the counters the model's counter turns into when every line whose width is exactly on a boundary point is put
+    into either of its two candidate ranges; all other lines stay where the model has them, every range keeps its
+    (possibly zero) entry"""
+    base = Counter({r: 0 for r in ranges})
+    tied = []
+    for w, c in zip(ws, model_cats):
+        t = _width_tie_ranges(w, bps, ranges)
+        if t is not None and c in t and len(t) == 2:
+            tied.append(sorted(t))
+        else:
+            base[c] += 1
+    states = {frozenset(base.items())}
+    for opts in tied:
+        nxt = set()
+        for st in states:
+            for lab in opts:
+                d = dict(st)
+                d[lab] = d.get(lab, 0) + 1
+                nxt.add(frozenset(d.items()))
+        states = nxt
+    return states
+
+
+def _width_cmp(ws, bps, i_ranges, i_cats, i_stats, m_ranges, m_cats, m_stats) -> Optional[str]:
+    """line-width outcome: range labels exact; per-line label exact except for a width on a boundary point (either
+    candidate range); the counter (a mapping) exact in its keys, zero entries included, and in every count a tied
+    line cannot have moved.  i_cats may be None (no per-line labels observed)."""
+    if i_ranges is not None and list(i_ranges) != list(m_ranges):
+        return f'ranges: impl={i_ranges} model={m_ranges}'
+    if len(m_cats) != len(ws):
+        return f'model categorised {len(m_cats)} of {len(ws)} widths'
+    if i_cats is not None:
+        if len(i_cats) != len(m_cats):
+            return f'cats: impl={i_cats} model={m_cats}'
+        for w, a, b in zip(ws, i_cats, m_cats):
+            if a != b:
+                t = _width_tie_ranges(w, bps, m_ranges)
+                if t is None or a not in t or b not in t:
+                    return f'cats: width {w} (boundary points {bps}): impl={a} model={b}'
+    di, dm = {a: b for a, b in i_stats}, {a: b for a, b in m_stats}
+    if len(di) != len(i_stats) or len(dm) != len(m_stats) or set(di) != set(dm):
+        return f'stats: keys differ: impl={i_stats} model={m_stats}'
+    reach = _width_counts_reachable(ws, bps, m_ranges, m_cats)
+    if frozenset(dm.items()) not in reach:
+        return f'stats: model counter {m_stats} does not count the model categories {m_cats}'
+    if frozenset(di.items()) not in reach:
+        return (f'stats: impl={i_stats} model={m_stats}: not the model counter with lines whose width is on a boundary '
+                f'point moved between the two ranges meeting there (widths {ws}, boundary points {bps})')
+    return None
+
+
+def _doc_width_inputs(inp):
+    """(boundary points, per document the widths of its lines with text) of a docstats case, or None when the boundary
+    points the call uses cannot be told from the case (the line-width columns are then compared exactly)"""
+    bps = inp.get('bps')
+    if bps is None:
+        c = _consts()
+        if 'defaultLineBinWidth' not in c or 'defaultMaxBin' not in c:
+            return None
+        lbw, mb = inp.get('lbw', c['defaultLineBinWidth']), inp.get('max_bin', c['defaultMaxBin'])
+        if lbw == 0:
+            return None
+        bps = list(range(lbw, mb, lbw))
+    return bps, [[l['w'] for l in _doc_lines(d) if l['text'] is not None] for d in inp['docs']]
 
 
 # ---------------------------------------------------------------------------------------
@@ -486,7 +594,28 @@ class C20(Check):
             elif r < 0.5:
                 inp['size'] = rng.choice([1, 3, 5, 10, 30, 40])
             out.append(Case('wordcat', inp, ['random', 'defaults']))
+        for c in out:
+            if self.outside(c) and OUTSIDE not in c.tags:
+                c.tags.append(OUTSIDE)
         return out
+
+    @staticmethod
+    def outside(case: Case) -> bool:
+        """inputs outside the quantifier of C20 ("all corpora (lists of strings, dictionaries or lines, with missing and
+        empty texts …)", "all lists of documents"): (1) a corpus with an element that is no string / None, no dictionary
+        with a 'text' entry and no line (the malformed stream: which exception the analyser raises there is mirrored by
+        the model but is no part of the statement); (2) get_doc_stats called with arguments outside the configurations
+        of the statement (_in_statement: a max_word_length that is no positive multiple of the bin size -> KeyError,
+        line_bin_width 0 without boundary points -> ValueError).  Model and code are still compared on them, a
+        difference is recorded in the evidence only (core.OUTSIDE); the oracle does not judge them."""
+        inp = case.input
+        if case.kind in ('analyse', 'complement'):
+            return any(isinstance(x, dict) for x in inp['lines'])
+        if case.kind == 'split':
+            return any(isinstance(x, dict) for p in inp['parts'] for x in p)
+        if case.kind == 'docstats':
+            return not _in_statement(inp)
+        return False
 
     # ---------------------------------------------------------------- implementation
     def impl(self, case: Case) -> Any:
@@ -596,9 +725,15 @@ class C20(Check):
             mdocs = [_model_doc(d, {k: int(v) for k, v in o.stats.items()}, stop, inp.get('re', False))
                      for d, o in zip(inp['docs'], docs)]
             # `null` = the argument is not passed to the real function: the driver uses the regenerated default
-            return [{'p': 'C20', 'op': 'doc_stats', 'args': {
+            reqs = [{'p': 'C20', 'op': 'doc_stats', 'args': {
                 'docs': mdocs, 'bps': inp.get('bps'), 'use_stop': stop is not None, 'max_len': inp.get('max_len'),
                 'line_bin_width': inp.get('lbw'), 'max_bin': inp.get('max_bin')}}]
+            # per document the model's range for every line with text (only used to tell where the model put lines whose
+            # width lies exactly on a boundary point, see compare)
+            wi = _doc_width_inputs(inp)
+            if wi is not None:
+                reqs += [{'p': 'C20', 'op': 'line_width', 'args': {'widths': ws, 'bps': wi[0]}} for ws in wi[1]]
+            return reqs
         return []
 
     def _cmp_analyser(self, i: Dict[str, Any], m: Dict[str, Any]) -> Optional[str]:
@@ -662,17 +797,16 @@ class C20(Check):
         if case.kind == 'keyness':
             if 'err' in impl_out:
                 return f'impl={impl_out}'
-            for side, m in (('fwd', model_out[0]['ok']), ('swapped', model_out[1]['ok'])):
-                io = impl_out['ok'][side]
-                mm = {tok: (tbl, more) for tok, tbl, more in m}
-                if set(mm) != set(io['more']) | set(io['less']):
-                    return f'{side}: vocabulary impl={sorted(set(io["more"]) | set(io["less"]))} model={sorted(mm)}'
-                for tok, (tbl, more) in mm.items():
-                    if (tok in io['more']) != more:
-                        return f'{side}: direction of {tok}: impl more={tok in io["more"]} model more={more} table={tbl}'
-                    s = io['more' if more else 'less'][tok]
-                    if sum(tbl) > 0 and not _close(s, _g2(*tbl)):
-                        return f'{side}: score of {tok}: impl={s!r} formula on the model table {tbl} = {_g2(*tbl)!r}'
+            t = dict((k, v) for k, v in inp['target'])
+            r = dict((k, v) for k, v in inp['ref'])
+            tt, rt = sum(t.values()), sum(r.values())
+            for side, m, (x, xt, y, yt) in (('fwd', model_out[0]['ok'], (t, tt, r, rt)),
+                                            ('swapped', model_out[1]['ok'], (r, rt, t, tt))):
+                # equal relative frequency, exactly: x[w] / xt == y[w] / yt  <=>  x[w] * yt == y[w] * xt
+                d = _keyness_cmp(side, impl_out['ok'][side], m,
+                                 lambda tok, x=x, xt=xt, y=y, yt=yt: x.get(tok, 0) * yt == y.get(tok, 0) * xt, score=True)
+                if d:
+                    return d
             return None
         if case.kind == 'complement':
             if 'err' in impl_out or 'err' in model_out[0]:
@@ -680,15 +814,14 @@ class C20(Check):
             d = self._cmp_analyser(impl_out['ok']['analyser'], model_out[0]['ok']['analyser'])
             if d:
                 return d
-            m = model_out[0]['ok']['keyness']
-            io = impl_out['ok']['fwd']
-            mm = {tok: (tbl, more) for tok, tbl, more in m}
-            if set(mm) != set(io['more']) | set(io['less']):
-                return f'complement vocabulary impl={sorted(set(io["more"]) | set(io["less"]))} model={sorted(mm)}'
-            for tok, (tbl, more) in mm.items():
-                if (tok in io['more']) != more:
-                    return f'complement direction of {tok}: impl more={tok in io["more"]} model more={more} table={tbl}'
-            return None
+            # target = the chosen counter, reference = 'all' minus it (the analyser's counters were just compared exactly)
+            an = impl_out['ok']['analyser']
+            x = dict((k, v) for k, v in an[inp['counter']])
+            al = dict((k, v) for k, v in an['all'])
+            xt = sum(x.values())
+            yt = sum(al.values()) - sum(x.get(k, 0) for k in al)
+            return _keyness_cmp('complement', impl_out['ok']['fwd'], model_out[0]['ok']['keyness'],
+                                lambda tok: x.get(tok, 0) * yt == (al.get(tok, 0) - x.get(tok, 0)) * xt, score=False)
         if case.kind == 'wordcat':
             m = model_out[0]
             if 'err' in impl_out:
@@ -698,7 +831,9 @@ class C20(Check):
             m = model_out[0]
             if 'err' in impl_out:
                 return f'impl={impl_out} model={m}'
-            return None if impl_out['ok'] == m['ok'] else f'impl={impl_out["ok"]} model={m["ok"]}'
+            io, mo = impl_out['ok'], m['ok']
+            return _width_cmp(inp['widths'], inp['bps'], io['ranges'], io['cats'], io['stats'],
+                              mo['ranges'], mo['cats'], mo['stats'])
         if case.kind == 'docstats':
             m = model_out[0]
             if 'err' in impl_out or 'err' in m:
@@ -707,9 +842,26 @@ class C20(Check):
             mt = m['ok']
             if [k for k, _ in mt] != list(it.keys()):
                 return f'columns differ: impl={list(it.keys())} model={[k for k, _ in mt]}'
+            # the line-width columns: a line whose width is exactly on a boundary point may be counted in either of the
+            # two ranges meeting there (see _width_tie_ranges); the per-line choice of the model comes from the extra
+            # `line_width` requests (one per document).  Everything else, and these columns when no line is tied, exact.
+            pre = 'line_width_range_'
+            wcols = [k for k, _ in mt if k.startswith(pre)]
+            wi = _doc_width_inputs(inp)
+            extra = model_out[1:]
+            tolerant = (wi is not None and len(extra) == len(inp['docs']) and len(set(wcols)) == len(wcols)
+                        and all('ok' in e and [pre + x for x in e['ok']['ranges']] == wcols for e in extra))
+            mtd = dict((k, v) for k, v in mt)
             for k, v in mt:
-                if it[k] != v:
+                if it[k] != v and not (tolerant and k in wcols and len(it[k]) == len(v)):
                     return f'column {k}: impl={it[k]} model={v}'
+            if tolerant:
+                bps, widths = wi
+                for di, (ws, e) in enumerate(zip(widths, extra)):
+                    d = _width_cmp(ws, bps, None, None, [[k[len(pre):], it[k][di]] for k in wcols],
+                                   e['ok']['ranges'], e['ok']['cats'], [[k[len(pre):], mtd[k][di]] for k in wcols])
+                    if d:
+                        return f'line-width columns of document {di}: {d}'
             return None
         return None
 
@@ -717,6 +869,9 @@ class C20(Check):
     def oracle(self, case: Case, out: Any) -> List[Finding]:
         fs: List[Finding] = []
         inp = case.input
+
+        if self.outside(case):
+            return fs          # outside the quantifier (see outside()): not judged
 
         def bad(key, what):
             fs.append(Finding(f'C20:{key}', what, case, out))
@@ -1004,7 +1159,14 @@ C20.level_note = (
     '(characters, get_line_words, str.split(\' \'), re.split), str.lower and the str predicates (isalpha, istitle, …) are '
     'parameters of the model: the driver receives their values from the running CPython. max_word_length values that are not '
     'positive multiples of the bin size make get_doc_stats raise KeyError (model and code agree; outside the statement\'s configurations, '
-    'not judged by the oracle). Known finding: use_re_word_boundaries=True still yields empty words for runs of blanks.')
+    'not judged by the oracle). Correspondence level: counters, tables and keyness directions are compared exactly up to '
+    '(a) the side (more / less) of a token whose relative frequencies in target and reference are EXACTLY equal '
+    '(t[w]*ref_total == r[w]*target_total on the integers of the case; still exactly one side, score compared), '
+    '(b) the range of a line whose width lies EXACTLY on a boundary point (either of the two ranges meeting there, in '
+    'categorise_line_width, the get_line_width_stats counter and the line_width_range_* columns; the order of the '
+    'counter\'s keys is not compared); corpora with malformed elements and get_doc_stats calls outside the statement\'s '
+    'configurations lie outside the quantifier: differences there are only recorded. '
+    'Known finding: use_re_word_boundaries=True still yields empty words for runs of blanks.')
 C20.assumptions = [
     'collections.Counter semantics (update, +=, __add__ keeping positive counts, missing key = 0) mirrored by hand as an '
     'association list; correspondence compares counters exactly',
